@@ -24,6 +24,13 @@ def main():
     rnd = random.Random(seed)
     mod = importlib.import_module(pid)
     t0 = time.time()
+    import shutil
+    base = os.environ.get("VERIF_SCRATCH_BASE", "/var/tmp")
+    free_gb = shutil.disk_usage(base).free / 2 ** 30
+    if free_gb < 6:
+        # a full disk makes builds and native replays fail in ways that look like verdicts: refuse to start instead
+        log("INCONCLUSIVE: only %.1f GB free under %s (scratch copies, Kani / cargo build output need about 5 GB)" % (free_gb, base))
+        sys.exit(2)
 
     if a.replay:
         with Scratch() as sc:
